@@ -24,7 +24,7 @@ PROP = "C09"
 def run(ctx):
     repo = ctx.repo
     res = Result(PROP)
-    res.rules = ["K1", "K2", "K5", "K-CANON", "M-MAP", "K3(info)"]
+    res.rules = ["K1", "K2", "K5", "K-CANON", "K-ZIP", "M-MAP", "K3(info)"]
     res.explanation = (
         "Abstract interpretation of every function of the structural-measure modules over ID / position kinds and the "
         "container shapes built from them (sa/kinds.py): each subscript is checked for a label used as a position or a "
@@ -46,6 +46,7 @@ def run(ctx):
                 n += 1
                 c12_matrices.check_map(repo, eng, res, fn, prop=PROP)
         res.floor("matrix builders with an index option", n, 11)
+        check_zip_order(repo, res, fns)
     return res
 
 
@@ -156,3 +157,63 @@ def provably_sorted(fn, arg, at_stmt, depth=0):
             return True, ""
         return False, f"`{arg.id}` is a parameter or set whose iteration order is not sorted"
     return False, f"`{unparse(arg, 40)}` is not derived from a sorted sequence"
+
+
+def order_tag(fn, e, depth=0):
+    """'view' (insertion order of the node/edge view), 'sorted', 'set' (hash order) or None (unknown) for an iterable."""
+    if depth > 4:
+        return None
+    if isinstance(e, ast.Attribute) and e.attr in ("nodes", "edges") and isinstance(e.value, ast.Name):
+        return "view"
+    if isinstance(e, ast.Call):
+        nm = getattr(e.func, "attr", getattr(e.func, "id", None))
+        if nm == "sorted":
+            return "sorted"
+        if nm in ("set", "frozenset") and isinstance(e.func, ast.Name):
+            return "set"
+        if nm in ("list", "tuple", "enumerate", "iter") and isinstance(e.func, ast.Name) and e.args:
+            return order_tag(fn, e.args[0], depth + 1)
+        if nm in ("aslist", "asnumpy", "asdict", "aspandas", "values", "keys", "items") and isinstance(e.func, ast.Attribute):
+            inner = e.func.value
+            # H.nodes.degree.aslist(), H.nodes.attrs(...).asdict().values(): view order when rooted at a view
+            for x in ast.walk(inner):
+                if isinstance(x, ast.Attribute) and x.attr in ("nodes", "edges"):
+                    return "view"
+            return order_tag(fn, inner, depth + 1)
+        if nm in ("filterby", "filterby_attr"):
+            return order_tag(fn, e.func.value, depth + 1)
+    if isinstance(e, ast.Name):
+        defs = [st.value for st in own_statements(fn.node) if isinstance(st, ast.Assign) and len(st.targets) == 1 and isinstance(st.targets[0], ast.Name) and st.targets[0].id == e.id]
+        tags = {order_tag(fn, d, depth + 1) for d in defs}
+        if len(tags) == 1:
+            return tags.pop()
+        # x.sort() on a local list
+        if any(isinstance(c, ast.Call) and isinstance(c.func, ast.Attribute) and c.func.attr == "sort" and isinstance(c.func.value, ast.Name) and c.func.value.id == e.id for c in ast.walk(fn.node)):
+            return "sorted"
+    return None
+
+
+def check_zip_order(repo, res, fns):
+    """K-ZIP: two sequences of per-node / per-edge data that are paired positionally come in the same order (pairing
+    sorted labels with values listed in view order attaches every value to another label unless labels were inserted sorted)."""
+    # the rule expects zero matches on a healthy tree: its recogniser must still see the embedded positive example
+    class _Fn:
+        node = ast.parse("def _ex(H):\n    order = sorted(H.nodes)\n    vals = H.nodes.degree.aslist()\n    return dict(zip(order, vals))\n").body[0]
+
+    ex = next(c for c in ast.walk(_Fn.node) if isinstance(c, ast.Call) and getattr(c.func, "id", None) == "zip")
+    if [order_tag(_Fn, a) for a in ex.args] != ["sorted", "view"]:
+        raise AnalysisError("K-ZIP self-check: the embedded positive example is no longer recognised")
+    n = 0
+    for fn in fns:
+        for c in ast.walk(fn.node):
+            if isinstance(c, ast.Call) and isinstance(c.func, ast.Name) and c.func.id == "zip" and len(c.args) >= 2:
+                tags = [order_tag(fn, a) for a in c.args]
+                known = [t for t in tags if t is not None]
+                if len(known) < 2:
+                    continue
+                n += 1
+                ok = len(set(known)) == 1
+                res.inst("K-ZIP", f"{fn.fq}:{c.lineno} zip({', '.join(unparse(a, 20) for a in c.args)}) pairs sequences of the same order ({known})", ok)
+                if not ok:
+                    res.add(mk_finding(PROP, "K-ZIP", fn, c, f"{fn.qualname}: `{unparse(c, 70)}` pairs sequences whose orders have different origins ({', '.join(f'{unparse(a, 20)}: {t}' for a, t in zip(c.args, tags) if t)}); each value is attached to the wrong label whenever the insertion order of the IDs differs from that order", role="zip"))
+    res.inst("K-ZIP", f"{n} positional pairings with known order provenance examined (embedded positive example recognised)", True)
